@@ -408,10 +408,19 @@ func checkMarshaled(r *Run, rc *RuleCtx, T *types.Named, sumFn, resetFn *ssa.Fun
 			if rep {
 				return st, false
 			}
-			on := false
+			// the first-time steps belong to the paths on which the flag was tested and found clear
+			on := true
 			for _, pc := range c.PathConds() {
-				if valueIsLoadOfField(pc.Cond, mF) && pc.Val {
-					on = true
+				cond, val := pc.Cond, pc.Val
+				for {
+					u, isU := cond.(*ssa.UnOp)
+					if !isU || u.Op != token.NOT {
+						break
+					}
+					cond, val = u.X, !val
+				}
+				if valueIsLoadOfField(cond, mF) && !val {
+					on = false
 				}
 			}
 			if !on {
@@ -439,7 +448,7 @@ func checkMarshaled(r *Run, rc *RuleCtx, T *types.Named, sumFn, resetFn *ssa.Fun
 			}
 			if bad != "" {
 				rep = true
-				rc.ViolationPath(resetFn, instrPos(in), bad+" on the marshaled path of Reset", "with the flag set the pads hold saved hash states, not key pads: Reset goes on into the first-time path, feeds a state blob to the hash as if it were the pad and saves that as the new state - every MAC after the second Reset is wrong", c.Witness(resetFn, in))
+				rc.ViolationPath(resetFn, instrPos(in), bad+" on a path of Reset on which the marshaled flag is not known clear", "with the flag set the pads hold saved hash states, not key pads: Reset goes on into the first-time path, feeds a state blob to the hash as if it were the pad and saves that as the new state - every MAC after the second Reset is wrong", c.Witness(resetFn, in))
 			}
 			return st, false
 		}
